@@ -105,10 +105,21 @@ def password_stage(rep, ctx):
             ctx.broken.append(('impl-crash', 'main() harness exited with %d: %s' % (rc, err[-300:])))
         for c, l, o in zip(sel, lines, out):
             outs[id(c)] = (l, o)
+    # the model (Startup.startup_password, extracted) on the same inputs
+    mod = None
+    if ctx.model:
+        ml = []
+        for which, stdin, env, args, want, what in cases:
+            ps = [args[i + 1] for i in range(len(args) - 1) if args[i] == b'-P']
+            ml.append('PW %s %s %s' % ('U' if env is None else hexs(env), hexs(stdin or b''), ' '.join(hexs(p) for p in ps)))
+        rcm, mod, errm = vlib.parallel_run_cases(ctx.model, [x.rstrip() for x in ml], ctx.work, 'pwmain-model')
     okc = 0
-    for c in cases:
+    for k, c in enumerate(cases):
         which, stdin, env, args, want, what = c
         l, o = outs[id(c)]
+        if mod is not None and k < len(mod) and mod[k] != want.hex():
+            ctx.broken.append(('correspondence', 'startup stage: model Startup.startup_password gives %s for %s, the documented buffer is %s' % (mod[k][:80], what, want.hex())))
+            mod = None
         f = fields(o)
         prog = 'iodine' if which == 'cli' else 'iodined'
         if f is None or f.get('password') in (None, 'UNSET'):
